@@ -8,6 +8,10 @@
 #include <Bpp/Numeric/Prob/ExponentialDiscreteDistribution.h>
 #include <Bpp/Numeric/Prob/GammaDiscreteDistribution.h>
 #include <Bpp/Numeric/Prob/SimpleDiscreteDistribution.h>
+#include <Bpp/Numeric/Prob/UniformDiscreteDistribution.h>
+#include <Bpp/Numeric/Prob/TruncatedExponentialDiscreteDistribution.h>
+#include <Bpp/Numeric/Prob/ConstantDistribution.h>
+#include <map>
 #include <Bpp/Numeric/VectorTools.h>
 #include <Bpp/App/ApplicationTools.h>
 #include "symrt.h"
@@ -26,7 +30,7 @@ extern "C" void verif_harness() {
   int which = __sym_choose("harness", HLO, HHI);
   if (which == 0) {
     // ---- continuous samplers: parameter conventions as exact statements over the random stream ----
-    int law = __sym_choose("law", 0, 5);
+    int law = __sym_choose("law", 0, 9);
     if (law == 0) { double e = sympos("entry"); double x = RandomTools::giveRandomNumberBetweenZeroAndEntry(e); SYM_ASSERT(x >= 0 && x < e, "uniform draw outside [0, entry)");
       __sym_uniform_rewind(); double u = __sym_uniform01(); SYM_ASSERT_EQ(x, u * e, "uniform draw is not entry times the canonical uniform");
       double p = symd("p"); SYM_ASSUME(p >= 0 && p <= 1); __sym_uniform_rewind(); bool c = RandomTools::flipCoin(p); SYM_ASSERT(c == (u < p), "coin flip differs from 'uniform < probability'"); }
@@ -45,6 +49,18 @@ extern "C" void verif_harness() {
     else if (law == 4) { static const double MU[2] = {1.5, -3.0}, SG[2] = {2.0, 0.5}; int k = __sym_choose("parameters", 0, 1); double mu = MU[k], sg = SG[k];   // (constructing the distribution discretises it: concrete parameters)     // the gaussian distribution's own continuous draw has standard deviation sigma
       GaussianDiscreteDistribution gd(2, mu, sg); __sym_uniform_rewind(); double z = RandomTools::randGaussian(0.0, 1.0); __sym_uniform_rewind(); double x = gd.randC();
       SYM_ASSERT_EQ(x, mu + sg * z, "the gaussian distribution's continuous draw is not mu + sigma times the standard draw"); }
+    else if (law == 6) { static const double LO[2] = {0.0, -2.0}, HI[2] = {1.0, 3.5}; int k = __sym_choose("parameters", 0, 1);   // the uniform distribution's continuous draw: its own cdf at the draw is the uniform variate
+      UniformDiscreteDistribution ud(3, LO[k], HI[k]); __sym_uniform_rewind(); double x = ud.randC(); if (__sym_uniform_count() != 1) return; __sym_uniform_rewind(); double u = __sym_uniform01();
+      SYM_ASSERT(x >= LO[k] && x <= HI[k], "the uniform distribution's draw is outside its support"); SYM_ASSERT_EQ(ud.pProb(x), u, "the uniform distribution's cdf at its continuous draw is not the uniform variate"); }
+    else if (law == 7) { static const double LA[2] = {1.0, 2.5}, TP[2] = {2.0, 1.5}; int k = __sym_choose("parameters", 0, 1);   // truncated exponential: an accepted first draw is the exponential quantile for the rate lambda, inside the truncated support
+      TruncatedExponentialDiscreteDistribution td(3, LA[k], TP[k]); __sym_uniform_rewind(); double x = td.randC(); if (__sym_uniform_count() != 1) return; __sym_uniform_rewind(); double u = __sym_uniform01();
+      SYM_ASSERT(x >= 0 && x <= TP[k], "the truncated exponential's draw is outside its support"); SYM_ASSERT_EQ(std::exp(-x * LA[k]), 1 - u, "the truncated exponential's continuous draw is not the exponential quantile for its rate"); }
+    else if (law == 8) { int n = __sym_choose("classes", 1, 3); map<double, double> d; vector<double> val(n), pr(n); double S = 0; for (int i = 0; i < n; i++) { pr[i] = sympos("w" + to_string(i)); S += pr[i]; }   // a discrete distribution's draw: the class whose cumulative-probability interval contains the uniform variate
+      for (int i = 0; i < n; i++) { val[i] = 1.0 + 2.0 * i; pr[i] = pr[i] / S; d[val[i]] = pr[i]; }
+      SimpleDiscreteDistribution sd(d); __sym_uniform_rewind(); double x = sd.rand(); SYM_ASSERT(__sym_uniform_count() == 1, "a discrete draw consumes more than one uniform variate"); __sym_uniform_rewind(); double u = __sym_uniform01();
+      double c = 0; int want = n - 1; for (int i = 0; i < n; i++) { c += pr[i]; if (u <= c) { want = i; break; } }
+      SYM_ASSERT(x == val[want], "a discrete distribution's draw is not the class whose cumulative-probability interval contains the uniform variate"); }
+    else if (law == 9) { double v = symd("value"); SYM_ASSUME(v > -100 && v < 100); ConstantDistribution cd(v); SYM_ASSERT(cd.randC() == v && cd.rand() == v, "the constant distribution draws something else than its value"); }
     else { double la = sympos("lambda");                                    // the exponential distribution's own draw has rate lambda
       ExponentialDiscreteDistribution ed(2, la); __sym_uniform_rewind(); double x = ed.randC(); if (__sym_uniform_count() != 1) return;   // (a draw outside the open support is redrawn: only first-draw acceptances are compared)
       __sym_uniform_rewind(); double u = __sym_uniform01();
